@@ -73,6 +73,11 @@ public:
      */
    void SetSourceExclusionID(uint32 sexID) {_sexID = sexID;}
 
+#ifdef MUSCLE_VERIF_HOOKS
+   /** Verification hook:  presets the counter that message IDs of outgoing Messages are taken from (to reach wrap-around quickly) */
+   void VerifSetSendMessageIDCounter(uint32 v) {_sendMessageIDCounter = v;}
+#endif
+
    /** Returns the current source-exclusion ID.  See above for details. */
    MUSCLE_NODISCARD uint32 GetSourceExclusionID() const {return _sexID;}
 
